@@ -27,7 +27,9 @@ ASSUMPTIONS = ["A3, A4 (pure normpath == C normpath), A5, A7",
                "existing directory, '..' is resolved against the walked path (no symlinks)"]
 
 METHODS = ["GET", "PUT", "POST", "DELETE", "MKCOL", "MKCALENDAR", "PROPFIND", "PROPPATCH", "REPORT"]
-SEGS = ["", ".", "..", "user", "calendars", "cal", "a.ics", "x", "...", "other", "srv"]
+SEGS = ["", ".", "..", "user", "calendars", "cal", "a.ics", "x", "...", "other", "srv",
+        # segments that still carry escapes after the front end's own decoding (double-encoded targets)
+        "..%2f..%2f..%2f..%2fother%2fy", "%2fsrv%2fother%2fz", "%2e%2e"]
 ROOT = mweb.ROOT
 
 
@@ -71,8 +73,11 @@ def _summary(res):
     return (res.status_class, None)
 
 
+ROOT_STORE = [False]
+
+
 def _run(method, path_info, hrefs=None):
-    w = mweb.fresh_world({"a.ics": b"xa"}, {"c.vcf": b"v1"})
+    w = mweb.fresh_world({"a.ics": b"xa"}, {"c.vcf": b"v1"}, root_store=ROOT_STORE[0])
     app = mweb.make_app()
     before = Wm.digest(w)
     w.log = []
@@ -113,7 +118,12 @@ def _judge(method, path_info, hrefs=None):
 
 
 def body_segments(segs):
-    method = METHODS[ctx.PART]
+    part = ctx.PART
+    if isinstance(part, (tuple, list)):
+        part, ROOT_STORE[0] = part[0], (part[1] == "rootstore")
+    else:
+        ROOT_STORE[0] = False
+    method = METHODS[part]
     path_info = "/" + "/".join(SEGS[i] for i in segs)
     ok, cls = _judge(method, path_info)
     return (ok, cls)
@@ -196,12 +206,12 @@ def h_kernel(path_info: str) -> bool:
     return run(body_kernel, path_info)
 
 
-def _real(method, path_info, hrefs=None):
+def _real(method, path_info, hrefs=None, root_store=False):
     import json
     import os
     import subprocess
     p = subprocess.run(["/venv/bin/python", os.path.join(os.path.dirname(__file__), "..", "real_c13.py"),
-                        json.dumps([method, path_info, hrefs])], capture_output=True, text=True, cwd="/repo",
+                        json.dumps([method, path_info, hrefs, root_store])], capture_output=True, text=True, cwd="/repo",
                        env={"PATH": os.environ.get("PATH", "")})
     if p.returncode != 0:
         return (None, "real replay failed to run: " + p.stderr[-400:])
@@ -211,7 +221,10 @@ def _real(method, path_info, hrefs=None):
 
 
 def real_segments(args, part):
-    return _real(METHODS[part], "/" + "/".join(SEGS[i] for i in args[0]))
+    rs = False
+    if isinstance(part, (tuple, list)):
+        part, rs = part[0], part[1] == "rootstore"
+    return _real(METHODS[part], "/" + "/".join(SEGS[i] for i in args[0]), root_store=rs)
 
 
 def real_raw(args, part):
@@ -232,9 +245,12 @@ _ENC = ["xandikos.web.XandikosBackend.get_resource", "xandikos.web.XandikosBacke
 HARNESSES = [
     Harness("segments", h_segments, body_segments,
             classes=[("dotted:as-normalised", 0), ("dotted:refused", 4), ("normal:2xx", 4), ("normal:404", 0)],
-            parts={"quick": list(range(len(METHODS)))}, bounds=_B, budget={"quick": 90, "thorough": 600},
+            parts={"quick": list(range(len(METHODS))) + [(3, "rootstore"), (1, "rootstore"), (4, "rootstore")],
+                   "thorough": list(range(len(METHODS))) + [(i, "rootstore") for i in range(len(METHODS))]},
+            bounds=_B, budget={"quick": 90, "thorough": 600},
             real_replay=real_segments,
-            describe="path_info = '/' + '/'.join(segments from an adversarial menu); part = method",
+            describe="path_info = '/' + '/'.join(segments from an adversarial menu incl. double-encoded ones); part = "
+                     "method, or (method, 'rootstore') for a deployment whose data root is itself a git collection",
             encodes=_ENC),
     Harness("raw", h_raw, body_raw, classes=[("dotted:refused", 4)],
             parts={"quick": [1, 3, 4, 5, 6], "thorough": list(range(len(METHODS)))}, bounds=_B,
